@@ -193,11 +193,16 @@ def run_c07_st(ctx):
 def run(ctx):
     vlib.build_harness()
     last = run_c06(ctx)
+    # generated graphs (diamonds, rate changers, packet stages) on the single-threaded runner
+    from checks import gengraph
+    graphs = gengraph.make(ctx, ["graph"], 80 if ctx.thorough() else 25, salt=6)
+    gfiles = gengraph.run(ctx, graphs, "gen")
     if last and not ctx.violations:
         self_test(ctx, last[0], last[1], C06_INV[:2])
+        gengraph.self_test(ctx, gfiles[0])
     quirk_demo(ctx)
     ctx.assumptions += [
-        "chains of the verdict styles listed in Graph.tla (real blocks: VectorSource, harness SrcWait in the style of SigMFSource, AddConst, RationalResampler(1,1)/(1,2), VectorSink); diamonds are covered on the multithreaded side only",
+        "chains of the verdict styles listed in Graph.tla (real blocks: VectorSource, harness SrcWait in the style of SigMFSource, AddConst, RationalResampler(1,1)/(1,2), VectorSink); generated graphs over the block library (Tee/Add diamonds, fan-out, Delay/Skip/RationalResampler, HdlcDeframer/VecToStream packet stages) are checked at result level against GraphSem.tla",
         "streams of capacity 2..4 samples (one page per sample) so that full/empty states are routine",
         "blocks are never dropped by Graph::run, so no stream closes during run()",
     ]
@@ -208,6 +213,11 @@ def run(ctx):
 
 def replay(ctx, path):
     vlib.build_harness()
+    with open(path) as f:
+        head = f.read(300)
+    if '"gengraph"' in head:
+        from checks import gengraph
+        return gengraph.replay(ctx, path)
     with open(path) as f:
         e0 = json.loads(f.readline())
     cap = e0.get("cap", 2)
